@@ -71,10 +71,11 @@ def _make_crs(
 
     crs_str = str(crs)
     crs_str_u = crs_str.upper()
-    # compound definitions like "EPSG:4326+5773" are not a single EPSG code
-    if crs_str_u.startswith("EPSG:") and crs_str_u[5:].isdigit():
+    if crs_str_u.startswith("EPSG:"):
         crs_str = crs_str_u
-        epsg = int(crs_str.split(":", 1)[1])
+        # compound definitions like "EPSG:4326+5773" are not a single EPSG code
+        if crs_str[5:].isdigit():
+            epsg = int(crs_str[5:])
 
     return (crs, crs_str, epsg)
 
